@@ -57,6 +57,7 @@ ResIds(e)  == LET r == Arr(e.res) IN {r[i][1] : i \in DOMAIN r}
 ResSeq(e)  == LET r == Arr(e.res) IN [i \in DOMAIN r |-> r[i][1]]
 
 \* ---- one event ------------------------------------------------------------------------
+\* returns <<failing C06 clauses, ghost afterwards, 1 if the capacity rule had to drop somebody>>
 C06Step(e) ==
     IF p6 THEN <<{}, prov, 0>> ELSE
     CASE e.op = "add" ->
@@ -73,10 +74,13 @@ C06Step(e) ==
            <<Pfx("C06.", FindFails(ProvOf(prov, e.c), e.t, ResIds(e))) \cup HeldClauses(e, prov, "find"), prov, 0>>
       [] OTHER -> <<HeldClauses(e, prov, e.op), prov, 0>>
 
-C07Step(e) ==
+\* cur = BkSet(e); returns <<failing C07 clauses, reg afterwards, cur, 1 if a live contact made
+\* room, 1 if a live contact was refreshed>>.  A call that registers nothing and leaves the table
+\* exactly as the previous event logged it cannot change the verdict of the shape / newest /
+\* frame clauses (nothing is lost, reg is unchanged): only the query clauses are evaluated then.
+C07Step(e, cur) ==
     IF p7 THEN <<{}, reg, prevBk, 0, 0>> ELSE
-    LET cur  == BkSet(e)
-        ins  == IF e.op \in {"add", "reg"} THEN e.p ELSE None
+    LET ins  == IF e.op \in {"add", "reg"} THEN e.p ELSE None
         insLive == IF e.op = "add" THEN e.ttl > 0 ELSE IF e.op = "reg" THEN (e.given /\ e.exp > e.t) ELSE FALSE
         rg   == IF e.op = "add" THEN Upd(reg, e.p, [addr |-> e.a, exp |-> e.t + e.ttl])
                 ELSE IF e.op = "reg" THEN Upd(reg, e.p, [addr |-> e.a, exp |-> IF e.given THEN e.exp ELSE Unspec])
@@ -84,14 +88,16 @@ C07Step(e) ==
         r    == IF e.op = "closest" THEN Arr(e.res) ELSE <<>>
         qry  == IF e.op # "closest" THEN {}
                 ELSE ClosestFails(Bytes, cur, e.t, e.tg, e.k, ResSeq(e))
-                     \cup (IF \A i \in DOMAIN r : \E f \in cur : f.id = r[i][1] /\ f.addr = r[i][2] /\ f.exp = r[i][3]
+                     \cup (IF {[id |-> r[i][1], addr |-> r[i][2], exp |-> r[i][3]] : i \in DOMAIN r}
+                                \subseteq {[id |-> f.id, addr |-> f.addr, exp |-> f.exp] : f \in cur}
                            THEN {} ELSE {"closest-not-held-live"})
-        lostLive == IdsOf(Live7(prevBk, e.t)) \ IdsOf(cur)
-    IN <<Pfx("C07.", ShapeFails(HB, cur, Self, K) \cup NewestFails(cur, rg)
-                     \cup FrameFails(HB, prevBk, cur, e.t, Self, K, ins, insLive) \cup qry),
-         rg, cur,
-         IF ins # None /\ lostLive \ {ins} # {} THEN 1 ELSE 0,
-         IF ins # None /\ ins \in IdsOf(Live7(prevBk, e.t)) THEN 1 ELSE 0>>
+    IN IF ins = None /\ cur = prevBk
+       THEN <<Pfx("C07.", qry), reg, cur, 0, 0>>
+       ELSE <<Pfx("C07.", ShapeFails(HB, cur, Self, K) \cup NewestFails(cur, rg)
+                          \cup FrameFails(HB, prevBk, cur, e.t, Self, K, ins, insLive) \cup qry),
+              rg, cur,
+              IF ins # None /\ (IdsOf(Live7(prevBk, e.t)) \ IdsOf(cur)) \ {ins} # {} THEN 1 ELSE 0,
+              IF ins # None /\ ins \in IdsOf(Live7(prevBk, e.t)) THEN 1 ELSE 0>>
 
 Step(e) ==
   CASE e.op = "id" ->
@@ -104,18 +110,18 @@ Step(e) ==
         /\ p6' = FALSE /\ p7' = FALSE /\ prov' = EmptyFn /\ reg' = EmptyFn /\ prevBk' = {}
         /\ UNCHANGED <<viol, idtab, stats>>
     [] OTHER ->
-        LET s6  == C06Step(e)
-            s7  == C07Step(e)
-            bad == s6[1] \cup s7[1]
-        IN /\ viol' = IF bad = {} THEN viol ELSE Append(viol, Fail(l, bad, [op |-> e.op, t |-> e.t]))
-           /\ p6' = (p6 \/ s6[1] # {}) /\ p7' = (p7 \/ s7[1] # {})
-           /\ prov' = s6[2] /\ reg' = s7[2] /\ prevBk' = s7[3]
-           /\ stats' = [stats EXCEPT !.c6 = @ + (IF p6 THEN 0 ELSE 1), !.c7 = @ + (IF p7 THEN 0 ELSE 1),
-                                     !.finds = @ + (IF e.op = "find" THEN 1 ELSE 0),
-                                     !.sweeps = @ + (IF e.op = "sweep" THEN 1 ELSE 0),
-                                     !.closest = @ + (IF e.op = "closest" THEN 1 ELSE 0),
-                                     !.capped = @ + s6[3], !.evicted = @ + s7[4], !.refreshed = @ + s7[5]]
-           /\ UNCHANGED idtab
+        \* (bounded quantifiers bind each computed value once)
+        \E cur \in {BkSet(e)} : \E s6 \in {C06Step(e)} : \E s7 \in {C07Step(e, cur)} :
+           LET bad == s6[1] \cup s7[1]
+           IN /\ viol' = IF bad = {} THEN viol ELSE Append(viol, Fail(l, bad, [op |-> e.op, t |-> e.t]))
+              /\ p6' = (p6 \/ s6[1] # {}) /\ p7' = (p7 \/ s7[1] # {})
+              /\ prov' = s6[2] /\ reg' = s7[2] /\ prevBk' = s7[3]
+              /\ stats' = [stats EXCEPT !.c6 = @ + (IF p6 THEN 0 ELSE 1), !.c7 = @ + (IF p7 THEN 0 ELSE 1),
+                                        !.finds = @ + (IF e.op = "find" THEN 1 ELSE 0),
+                                        !.sweeps = @ + (IF e.op = "sweep" THEN 1 ELSE 0),
+                                        !.closest = @ + (IF e.op = "closest" THEN 1 ELSE 0),
+                                        !.capped = @ + s6[3], !.evicted = @ + s7[4], !.refreshed = @ + s7[5]]
+              /\ UNCHANGED idtab
 
 Next == l <= Len(T) /\ l' = l + 1 /\ Step(T[l])
 Spec == Init /\ [][Next]_vars
